@@ -19,13 +19,18 @@ PROPS = {
                           "argument are SMT-discharged for all inputs. PELT._predict wiring (pandas) bounded.",
             "level_note": "PF is defined by its Bellman equations (definition of the spec function); telescoping of the link equalities to the total cost is "
                           "a paper step; floats as reals; interface contract of user costs assumed; class glue bounded"},
-    "C03": {"category": "exploration", "driver": "C03", "claimed": True,
-            "technique": "bounded brute-force comparison of the real CAPA/MVCAPA kernels with subset enumeration + full dynamic programme "
-                         "(contracts on run_base_capa not yet discharged deductively; penalty functions proved under C15)",
-            "level_text": "Exhaustive small L2 inputs and seeded sub-additive table savings, n<=9, p<=2, 2<=m<=M<=8, all penalty shapes, through "
-                          "run_base_capa/run_capa/run_mvcapa and the classes: score == optimum per prefix, structure, re-evaluation == final score, "
-                          "ignore_point_anomalies. Bounded stand-in, not a proof.",
-            "level_note": "bounded only: the CAPA dynamic programme (nan-valued back-pointer array, two loops) is not yet within the verifier's reach"},
+    "C03": {"category": "proof", "driver": "C03", "claimed": True,
+            "technique": "contract-based deductive verification of run_base_capa / optimise_savings / penalise_savings / get_anomalies against the Bellman "
+                         "optimum of uninterpreted penalised savings (loop invariants with ghost presence maps and pruning witnesses, z3/cvc5) "
+                         "+ brute-force bounded comparison with subset enumeration",
+            "level_text": "run_base_capa: for all savings meeting the interface contract with penalised sub-additivity, all n>=m, 2<=m<=M and penalties: "
+                          "opt_savings[T]==CG(T) for every prefix (CG = optimal total penalised saving, defined by its Bellman equations), every "
+                          "back-pointer realises CG link by link, reported anomalies have admissible lengths and are pairwise disjoint; delayed pruning and "
+                          "the max-length rule are part of the invariant. penalise_savings == best non-empty subset proved for p<=2 (both branches), "
+                          "optimise_savings' start == the maximising candidate. Non-negative/non-decreasing scores follow from CG's definition. "
+                          "Class glue, ignore_point_anomalies, p>2 subset exchange argument and 're-evaluation == final score' (telescoping) are bounded.",
+            "level_note": "CG defined by its Bellman equations; PSC for symbolic p is the assumed row-wise penalised saving (exchange argument assumed, "
+                          "proved for p<=2, enumerated for p<=6 by the bounded tier); floats as reals; scorer interface assumed"},
     "C04": {"category": "proof", "driver": "C04", "claimed": True,
             "technique": "contract-based deductive verification of the search kernels' structural postconditions (own AST->VC generator, z3/cvc5) "
                          "+ bounded run-time check of predict's frame for all seven detectors",
@@ -47,9 +52,32 @@ PROPS = {
                           "kernels and classes; non-negativity of CUSUM/L2 saving proved. LocalAnomalyScore, optimal<=fixed and split inequality for the Gaussian "
                           "costs: bounded only.",
             "level_note": "interface contract of user costs assumed; sktime clone/set_params assumed; floats as reals"},
-    "C07": {"category": "proof", "driver": None},
-    "C08": {"category": "proof", "driver": None},
-    "C09": {"category": "proof", "driver": None},
+    "C07": {"category": "proof", "driver": "C07", "claimed": True,
+            "technique": "contract-based deductive verification of make_seeded_intervals, run_seeded_binseg and greedy_changepoint_selection "
+                         "(loop invariants with ghost selection witnesses, z3/cvc5) + bounded comparison with a reference greedy incl. table scores",
+            "level_text": "Proved for all inputs: candidate intervals inside [0,n] with lengths in [2m, min(M,n)] and non-empty for n>=2m; per-interval "
+                          "score/maximiser == max / first argmax over admissible splits of the column-summed change score (any change score meeting the "
+                          "interface contract); greedy selection: every changepoint supported by an above-threshold interval, every above-threshold "
+                          "interval contains a changepoint, spacing >= m. 'Exactly the greedy sequence' and threshold monotonicity: bounded "
+                          "(reference greedy, all threshold pairs).",
+            "level_note": "np.geomspace/round/unique/ceil/log assumed contracts; termination of the greedy loop not proved; threshold formula under C15"},
+    "C08": {"category": "proof", "driver": "C08", "claimed": True,
+            "technique": "contract-based deductive verification of moving_window_transform, where and get_moving_window_changepoints "
+                         "(z3/cvc5) + bounded check with recording / table change scores and time reversal",
+            "level_text": "Proved for all inputs: scores[t] == AGG(t-b, t, t+b) for b<=t<=n-b and 0 elsewhere for every change score meeting the interface "
+                          "contract (evaluate's cuts are proved valid, so bandwidth=1 cannot raise); where() returns exactly the maximal runs of True; "
+                          "changepoints are the first positions of the maximum within each maximal above-threshold run of length >= "
+                          "min_detection_interval, and nothing else. Time-reversal consequence: bounded.",
+            "level_note": "scorer interface assumed; floats as reals; MovingWindow class glue (pandas) bounded"},
+    "C09": {"category": "proof", "driver": "C09", "claimed": True,
+            "technique": "contract-based deductive verification of make_anomaly_intervals, run_circular_binseg and greedy_anomaly_selection "
+                         "(z3/cvc5) + bounded comparison with a reference greedy incl. table scores",
+            "level_text": "Proved for all inputs: make_anomaly_intervals returns exactly the admissible inner intervals (both inclusions); per-candidate "
+                          "score == max of the column-summed local anomaly score over them (0 when there is none: argmax is never taken of an empty "
+                          "set), the scores-table columns hold the attaining inner interval; greedy selection: supported, exhaustive, pairwise "
+                          "disjoint, strictly inside the data, length >= m. 'Exactly the greedy sequence' and threshold monotonicity: bounded.",
+            "level_note": "local-anomaly-score interface assumed (LocalAnomalyScore's refit loop itself is bounded under C06); termination of the greedy loop "
+                          "not proved"},
     "C10": {"category": "proof", "driver": "C10", "claimed": True,
             "technique": "contract-based deductive verification: every kernel under contract must establish the scorer's fitted state itself (fit before "
                          "evaluate is a proof obligation, no store into caller arrays) + bounded differential testing of call histories (length<=3/4)",
